@@ -20,6 +20,9 @@ open CTV.Model.Scan CTV.Model.Migrate
 
 namespace C20
 
+/-- configuration used in the loop example -/
+def exCfg0 : Cfg := { src := fun i => 100 + i, idf := fun i p => 1000 * i + p, retryQuota := true }
+
 /-! ## regenerated arithmetic and decisions = the model's -/
 
 /-- `fetchTail` starts at `max(destination tree size, begin)` in continuous mode and for a negative configured start,
@@ -38,6 +41,29 @@ theorem fetchTail_start_arith (cont : Bool) (cfgStart : Int) (treeSize begin : N
     · simp only [hn, decide_true, if_true]; split <;> rename_i h <;> simp only [decide_eq_true_eq] at h <;> omega
     · simp only [hn, decide_false, Bool.false_eq_true, if_false]
       split <;> rename_i h <;> simp only [decide_eq_true_eq] at h <;> omega
+
+/-- The same for the whole start computation **in the order the code performs it** (`Gen.fetchTailRange` is the statement
+sequence between `fo := c.opts.FetcherOptions` and the log line, translated in order): the pass starts at `passStart`, in
+continuous mode the configured end is ignored, and the inner fetcher is never continuous. Moving the `begin` clamp above
+the mode branch (so that continuous mode forgets the position) makes this false. -/
+theorem fetchTail_range_arith (cont : Bool) (cfgStart cfgEnd : Int) (treeSize begin : Nat)
+    (h1 : cfgStart < 2^63) (h2 : (treeSize : Int) < 2^63) (h3 : (begin : Int) < 2^63) :
+    Gen.fetchTailRange cfgStart cfgEnd cont treeSize begin
+      = (((passStart cont cfgStart treeSize begin : Nat) : Int), (if cont then 0 else cfgEnd), false) := by
+  have w : I64.wrap64 (begin : Int) = begin := I64.wrap64_id' _ (by omega) h3
+  have w2 : I64.wrap64 (treeSize : Int) = treeSize := I64.wrap64_id' _ (by omega) h2
+  simp only [Gen.fetchTailRange, passStart, w, w2]
+  cases cont with
+  | true =>
+    simp only [if_true]
+    split <;> rename_i h <;> simp only [decide_eq_true_eq] at h <;> simp <;> omega
+  | false =>
+    simp only [Bool.false_eq_true, if_false]
+    by_cases hn : cfgStart < 0
+    · simp only [hn, decide_true, if_true]
+      split <;> rename_i h <;> simp only [decide_eq_true_eq] at h <;> simp <;> omega
+    · simp only [hn, decide_false, Bool.false_eq_true, if_false]
+      split <;> rename_i h <;> simp only [decide_eq_true_eq] at h <;> simp <;> omega
 
 /-- the early exit and the empty-root shortcut of the code are the model's `gate` tests -/
 theorem gate_tests (sth begin treeSize : Nat) :
@@ -246,6 +272,79 @@ theorem no_gap_reorder_conflict (c : Cfg) (dest0 : List Stored) (ps : List PassS
     refine ⟨this.1, ?_⟩
     intro x hx
     exact this.2 x (pass_monotone c p.start p.end_ p.batch p.fetchers p.submitters dest0 p.ops x hx)
+
+/-! ## the Controller's continuous loop: the position is never forgotten -/
+
+/-- what `Run` maintains between passes: the destination is a faithful copy and holds everything below the position -/
+def RunInv (c : Cfg) (s : RunSt) : Prop := AllFaithful c s.dest ∧ ∀ i, i < s.pos → covered s.dest i
+
+/-- **One iteration of `Controller.Run`.** Under the destination's contract (its reported tree size never exceeds its stored
+prefix), an iteration keeps the invariant — so the hypothesis of `pass_extends_prefix` is discharged by the loop itself: the
+pass starts at `max(treeSize, pos)`, below which everything is present — never loses a record, **and adds nothing below the
+position it had reached**: continuous mode does not go back over entries it has already submitted, however far the
+destination's signed root lags behind. -/
+theorem controller_iter (c : Cfg) (s : RunSt) (it : Iter) (h : RunInv c s)
+    (hcontract : ∀ i, i < it.treeSize → covered s.dest i) :
+    RunInv c (runIter c s it) ∧ (∀ x ∈ s.dest, x ∈ (runIter c s it).dest) ∧
+    (∀ x ∈ (runIter c s it).dest, x ∈ s.dest ∨ (s.pos ≤ x.idx ∧ it.treeSize ≤ x.idx ∧ x.idx < it.sth)) := by
+  unfold runIter
+  by_cases hup : it.sth ≤ s.pos
+  · simp only [hup, if_true]
+    exact ⟨h, fun x hx => hx, fun x hx => Or.inl hx⟩
+  · simp only [hup, if_false]
+    have hstart : ∀ i, i < passStart true 0 it.treeSize s.pos → covered s.dest i := by
+      intro i hi
+      simp only [passStart, if_true] at hi
+      by_cases h1 : i < it.treeSize
+      · exact hcontract i h1
+      · exact h.2 i (by omega)
+    have hstart2 : s.pos ≤ passStart true 0 it.treeSize s.pos ∧ it.treeSize ≤ passStart true 0 it.treeSize s.pos := by
+      simp only [passStart, if_true]; omega
+    have hf := pass_faithful c (passStart true 0 it.treeSize s.pos) it.sth it.batch it.fetchers it.submitters s.dest it.ops h.1
+    have hm := pass_monotone c (passStart true 0 it.treeSize s.pos) it.sth it.batch it.fetchers it.submitters s.dest it.ops
+    have hd := dest_faithful c (passStart true 0 it.treeSize s.pos) it.sth it.batch it.fetchers it.submitters s.dest it.ops
+    have hadded : ∀ x ∈ (prun c (pinit (passStart true 0 it.treeSize s.pos) it.sth it.batch it.fetchers it.submitters s.dest) it.ops).dest,
+        x ∈ s.dest ∨ (s.pos ≤ x.idx ∧ it.treeSize ≤ x.idx ∧ x.idx < it.sth) := by
+      intro x hx
+      rcases hd x hx with h1 | h1
+      · exact Or.inl h1
+      · right; omega
+    cases hok : passOk (prun c (pinit (passStart true 0 it.treeSize s.pos) it.sth it.batch it.fetchers it.submitters s.dest) it.ops) with
+    | true =>
+      simp only [if_true]
+      refine ⟨⟨hf, ?_⟩, fun x hx => hm x hx, hadded⟩
+      exact pass_extends_prefix c _ it.sth it.batch it.fetchers it.submitters s.dest it.ops hstart hok
+    | false =>
+      simp only [Bool.false_eq_true, if_false]
+      exact ⟨⟨hf, fun i hi => absurd hi (Nat.not_lt_zero i)⟩, fun x hx => hm x hx, hadded⟩
+
+/-- the destination's contract along a sequence of iterations -/
+def Contract (c : Cfg) : RunSt → List Iter → Prop
+  | _, [] => True
+  | s, it :: t => (∀ i, i < it.treeSize → covered s.dest i) ∧ Contract c (runIter c s it) t
+
+/-- **Any number of iterations** (`Run`'s loop, with growth of the source between passes, a lagging destination root, failures
+and restarts): the invariant holds throughout, and whenever an iteration's pass returns nil the whole prefix `[0, sth)` of
+the source is mirrored. -/
+theorem controller_loop (c : Cfg) (s : RunSt) (its : List Iter) (h : RunInv c s) (hc : Contract c s its) :
+    RunInv c (runIters c s its) ∧ (∀ x ∈ s.dest, x ∈ (runIters c s its).dest) := by
+  induction its generalizing s with
+  | nil => exact ⟨h, fun x hx => hx⟩
+  | cons it t ih =>
+    obtain ⟨h1, h2⟩ := hc
+    have hi := controller_iter c s it h h1
+    have := ih (runIter c s it) hi.1 h2
+    exact ⟨this.1, fun x hx => this.2 x (hi.2.1 x hx)⟩
+
+/-- the seeded scenario of C16-3 in the model: source 4, then 6 entries; the destination's root stays at 0; the second pass
+fetches `[4, 6)`, not `[0, 6)` -/
+example : passStart true 0 0 4 = 4 := by decide
+example : (runIters (exCfg0) ⟨0, []⟩
+    [⟨0, 4, 10, 1, 1, [.fetch (.hand 0), .fetch (.resp 0 4), .take 0 0, .ack 0, .fetch .close]⟩,
+     ⟨0, 6, 10, 1, 1, [.fetch (.hand 0), .fetch (.resp 0 2), .take 0 0, .ack 0, .fetch .close]⟩]).dest.map (·.idx) = [0, 1, 2, 3, 4, 5]
+  ∧ (runIters (exCfg0) ⟨0, []⟩
+    [⟨0, 4, 10, 1, 1, [.fetch (.hand 0), .fetch (.resp 0 4), .take 0 0, .ack 0, .fetch .close]⟩,
+     ⟨0, 6, 10, 1, 1, [.fetch (.hand 0), .fetch (.resp 0 2), .take 0 0, .ack 0, .fetch .close]⟩]).pos = 6 := by decide
 
 /-! ## concrete instances -/
 
